@@ -1,4 +1,5 @@
 import Afkak.Monitor.C04
+import Afkak.Monitor.C04Total
 import Afkak.Wire.Requests
 /-!
 # C04 — full-strength statements
@@ -63,5 +64,181 @@ def C04_order_preserved_stmt : Prop :=
 def C04_crc_valid_stmt : Prop :=
   ∀ (ext : Ext) (m : Message) (bytes : Bytes), encodeMessage ext m = .ok bytes →
     ∃ sm, specMsg ext.nowMs m = some sm ∧ ((Spec.message ext.crc).valid sm = true → (Spec.message ext.crc).dec bytes = some sm)
+
+/-- the guard of `_group_payloads` (as many payloads in the grouped structure as were given) holds
+    exactly for the lists that name no (topic, partition) twice: nothing legal is refused, and no
+    list that would lose a payload passes -/
+def C04_guard_exact_stmt : Prop :=
+  ∀ {α : Type} (topic : α → Option Bytes) (partition : α → Int) (xs : List α),
+    payloadCount (groupByTopicPartition topic partition xs) = xs.length
+      ↔ (xs.map (fun x => (topic x, partition x))).Nodup
+
+/-- a payload list that names a (topic, partition) twice is refused (`ValueError`) by every
+    broker-aware encoder: no request is written from which a payload is missing -/
+def C04_duplicate_refused_stmt : Prop :=
+  (∀ (ext : Ext) (cid : Bytes) (corr : Int) (ps : List ProduceReq) (acks timeout ver : Int),
+      ¬ (ps.map (fun p => (p.topic, p.partition))).Nodup →
+      encodeProduceRequest ext cid corr ps acks timeout ver = .error .valueError)
+  ∧ (∀ (cid : Bytes) (corr : Int) (ps : List FetchReq) (wait minb ver : Int),
+      ¬ (ps.map (fun p => (p.topic, p.partition))).Nodup →
+      encodeFetchRequest cid corr ps wait minb ver = .error .valueError)
+  ∧ (∀ (cid : Bytes) (corr : Int) (ps : List OffsetReq),
+      ¬ (ps.map (fun p => (p.topic, p.partition))).Nodup →
+      encodeOffsetRequest cid corr ps = .error .valueError)
+  ∧ (∀ (cid : Bytes) (corr : Int) (g : Option Bytes) (ps : List OffsetFetchReq),
+      ¬ (ps.map (fun p => (p.topic, p.partition))).Nodup →
+      encodeOffsetFetchRequest cid corr g ps = .error .valueError)
+  ∧ (∀ (cid : Bytes) (corr : Int) (g : Option Bytes) (gen : Int) (c : Bytes) (ps : List OffsetCommitReq),
+      ¬ (ps.map (fun p => (p.topic, p.partition))).Nodup →
+      encodeOffsetCommitRequest cid corr g gen (some c) ps = .error .valueError)
+
+
+/-! ### no spurious refusal: a value the grammar can carry is written, and the monitor says `ok` -/
+
+def C04_produce_total_stmt : Prop :=
+  ∀ (ext : Ext) (cid : Bytes) (corr : Int) (ps : List ProduceReq) (acks timeout ver v : Int)
+    (l : List (Bytes × (Int × List (Int × Spec.Msg)))),
+    implementedVersion ver = some v →
+    keyed ProduceReq.topic ProduceReq.partition (fun p => specEntries ext.nowMs p.messages) ps = some l →
+    ¬ (v < 2 ∧ l.any (fun e => e.2.2.any (fun m => m.2.magic ≠ 0)) = true) →
+    (ps.map (fun p => (p.topic, p.partition))).Nodup →
+    (Spec.request (Spec.produceRequest ext.crc)).valid (hdr 0 v corr cid, acks, timeout, regroup l) = true →
+    (∀ e ∈ regroup l, isAscii e.1 = true) →
+    ∃ frame, encodeProduceRequest ext cid corr ps acks timeout ver = .ok frame
+      ∧ Monitor.C04.produce ext.crc ext.nowMs cid corr ps acks timeout ver frame = .ok
+
+def C04_fetch_total_stmt : Prop :=
+  ∀ (cid : Bytes) (corr : Int) (ps : List FetchReq) (wait minb ver v : Int) (l : List (Bytes × (Int × (Int × Int)))),
+    implementedVersion ver = some v →
+    keyed FetchReq.topic FetchReq.partition (fun p => some (p.offset, p.maxBytes)) ps = some l →
+    (ps.map (fun p => (p.topic, p.partition))).Nodup →
+    (Spec.request Spec.fetchRequest).valid (hdr 1 v corr cid, -1, wait, minb, regroup l) = true →
+    (∀ e ∈ regroup l, isAscii e.1 = true) →
+    ∃ frame, encodeFetchRequest cid corr ps wait minb ver = .ok frame
+      ∧ Monitor.C04.fetch cid corr ps wait minb ver frame = .ok
+
+def C04_list_offsets_total_stmt : Prop :=
+  ∀ (cid : Bytes) (corr : Int) (ps : List OffsetReq) (l : List (Bytes × (Int × (Int × Int)))),
+    keyed OffsetReq.topic OffsetReq.partition (fun p => some (p.time, p.maxOffsets)) ps = some l →
+    (ps.map (fun p => (p.topic, p.partition))).Nodup →
+    (Spec.request Spec.listOffsetsRequest).valid (hdr 2 0 corr cid, -1, regroup l) = true →
+    (∀ e ∈ regroup l, isAscii e.1 = true) →
+    ∃ frame, encodeOffsetRequest cid corr ps = .ok frame ∧ Monitor.C04.listOffsets cid corr ps frame = .ok
+
+def C04_offset_fetch_total_stmt : Prop :=
+  ∀ (cid g : Bytes) (corr : Int) (ps : List OffsetFetchReq) (l : List (Bytes × (Int × Unit))),
+    keyed OffsetFetchReq.topic OffsetFetchReq.partition (fun _ => some ()) ps = some l →
+    (ps.map (fun p => (p.topic, p.partition))).Nodup →
+    (Spec.request Spec.offsetFetchRequest).valid
+      (hdr 9 1 corr cid, g, (regroup l).map (fun e => (e.1, e.2.map (·.1)))) = true →
+    isAscii g = true → (∀ e ∈ regroup l, isAscii e.1 = true) →
+    ∃ frame, encodeOffsetFetchRequest cid corr (some g) ps = .ok frame
+      ∧ Monitor.C04.offsetFetch cid corr (some g) ps frame = .ok
+
+def C04_offset_commit_total_stmt : Prop :=
+  ∀ (cid g c : Bytes) (corr gen : Int) (ps : List OffsetCommitReq)
+    (l : List (Bytes × (Int × (Int × Int × Option Bytes)))),
+    keyed OffsetCommitReq.topic OffsetCommitReq.partition (fun p => some (p.offset, p.timestamp, p.metadata)) ps = some l →
+    (ps.map (fun p => (p.topic, p.partition))).Nodup →
+    (Spec.request Spec.offsetCommitRequest).valid (hdr 8 1 corr cid, g, gen, c, regroup l) = true →
+    isAscii g = true → isAscii c = true → (∀ e ∈ regroup l, isAscii e.1 = true) →
+    ∃ frame, encodeOffsetCommitRequest cid corr (some g) gen (some c) ps = .ok frame
+      ∧ Monitor.C04.offsetCommit cid corr (some g) gen (some c) ps frame = .ok
+
+def C04_metadata_total_stmt : Prop :=
+  ∀ (cid : Bytes) (corr : Int) (topics : List (Option Bytes)) (ts : List Bytes),
+    topics.mapM id = some ts →
+    (Spec.request Spec.metadataRequest).valid (hdr 3 0 corr cid, ts) = true →
+    (∀ t ∈ ts, isAscii t = true) →
+    ∃ frame, encodeMetadataRequest cid corr topics = .ok frame ∧ Monitor.C04.metadata cid corr topics frame = .ok
+
+def C04_group_requests_total_stmt : Prop :=
+  (∀ (cid g : Bytes) (corr : Int),
+    (Spec.request Spec.findCoordinatorRequest).valid (hdr 10 0 corr cid, g) = true → isAscii g = true →
+    ∃ frame, encodeConsumerMetadataRequest cid corr (some g) = .ok frame
+      ∧ Monitor.C04.findCoordinator cid corr (some g) frame = .ok)
+  ∧ (∀ (cid g m : Bytes) (corr gen : Int),
+    (Spec.request Spec.heartbeatRequest).valid (hdr 12 0 corr cid, g, gen, m) = true →
+    ∃ frame, encodeHeartbeatRequest cid corr (some g) gen (some m) = .ok frame
+      ∧ Monitor.C04.heartbeat cid corr (some g) gen (some m) frame = .ok)
+  ∧ (∀ (cid g m : Bytes) (corr : Int),
+    (Spec.request Spec.leaveGroupRequest).valid (hdr 13 0 corr cid, g, m) = true →
+    ∃ frame, encodeLeaveGroupRequest cid corr (some g) (some m) = .ok frame
+      ∧ Monitor.C04.leaveGroup cid corr (some g) (some m) frame = .ok)
+  ∧ (∀ (cid : Bytes) (corr : Int),
+    (Spec.request Spec.apiVersionsRequest).valid (hdr 18 0 corr cid, ()) = true →
+    ∃ frame, encodeApiVersionsRequest cid corr 18 0 = .ok frame
+      ∧ Monitor.C04.apiVersions cid corr 18 0 frame = .ok)
+
+def C04_join_sync_total_stmt : Prop :=
+  (∀ (cid : Bytes) (corr : Int) (p : JoinGroupReq) (g m t : Bytes) (ps : List (Bytes × Bytes)),
+    p.group = some g → p.memberId = some m → p.protocolType = some t → pairs p.groupProtocols = some ps →
+    (Spec.request Spec.joinGroupRequest).valid (hdr 11 0 corr cid, g, p.sessionTimeout, m, t, ps) = true →
+    (∀ e ∈ ps, isAscii e.1 = true) →
+    ∃ frame, encodeJoinGroupRequest cid corr p = .ok frame ∧ Monitor.C04.joinGroup cid corr p frame = .ok)
+  ∧ (∀ (cid g m : Bytes) (corr gen : Int) (asg : List (Option Bytes × Option Bytes)) (ps : List (Bytes × Bytes)),
+    pairs asg = some ps →
+    (Spec.request Spec.syncGroupRequest).valid (hdr 14 0 corr cid, g, gen, m, ps) = true →
+    ∃ frame, encodeSyncGroupRequest cid corr (some g) gen (some m) asg = .ok frame
+      ∧ Monitor.C04.syncGroup cid corr (some g) gen (some m) asg frame = .ok)
+
+def C04_consumer_protocol_total_stmt : Prop :=
+  (∀ (ver : Int) (subs : List (Option Bytes)) (ud : Option Bytes) (ts : List Bytes),
+    subs.mapM id = some ts → (whole Spec.subscription).valid (ver, ts, ud) = true →
+    ∃ data, encodeJoinGroupProtocolMetadata ver subs ud = .ok data ∧ Monitor.C04.subscription ver subs ud data = .ok)
+  ∧ (∀ (ver : Int) (asg : List (Option Bytes × List Int)) (ud : Option Bytes) (a : List (Bytes × List Int)),
+    asg.mapM (fun (p : Option Bytes × List Int) => p.1.map (fun t => (t, p.2))) = some a →
+    (whole Spec.assignment).valid (ver, a, ud) = true → (∀ e ∈ a, isAscii e.1 = true) →
+    ∃ data, encodeSyncGroupMemberAssignment ver asg ud = .ok data ∧ Monitor.C04.assignment ver asg ud data = .ok)
+
+/-- **What the harness evaluates when the real encoder refused**: an argument list for which the
+    executable predicate `must…` holds is never refused by the model of the encoder, and the frame
+    conforms.  (The predicates are exactly the hypotheses of the `C04_*_total` statements.) -/
+def C04_must_encode_stmt : Prop :=
+  (∀ (ext : Ext) (cid : Bytes) (corr : Int) (ps : List ProduceReq) (acks timeout ver : Int),
+    mustProduce ext.crc ext.nowMs cid corr ps acks timeout ver = true →
+    ∃ frame, encodeProduceRequest ext cid corr ps acks timeout ver = .ok frame
+      ∧ Monitor.C04.produce ext.crc ext.nowMs cid corr ps acks timeout ver frame = .ok)
+  ∧ (∀ (cid : Bytes) (corr : Int) (ps : List FetchReq) (wait minb ver : Int),
+    mustFetch cid corr ps wait minb ver = true →
+    ∃ frame, encodeFetchRequest cid corr ps wait minb ver = .ok frame
+      ∧ Monitor.C04.fetch cid corr ps wait minb ver frame = .ok)
+  ∧ (∀ (cid : Bytes) (corr : Int) (ps : List OffsetReq),
+    mustListOffsets cid corr ps = true →
+    ∃ frame, encodeOffsetRequest cid corr ps = .ok frame ∧ Monitor.C04.listOffsets cid corr ps frame = .ok)
+  ∧ (∀ (cid : Bytes) (corr : Int) (g : Option Bytes) (ps : List OffsetFetchReq),
+    mustOffsetFetch cid corr g ps = true →
+    ∃ frame, encodeOffsetFetchRequest cid corr g ps = .ok frame ∧ Monitor.C04.offsetFetch cid corr g ps frame = .ok)
+  ∧ (∀ (cid : Bytes) (corr : Int) (g : Option Bytes) (gen : Int) (c : Option Bytes) (ps : List OffsetCommitReq),
+    mustOffsetCommit cid corr g gen c ps = true →
+    ∃ frame, encodeOffsetCommitRequest cid corr g gen c ps = .ok frame
+      ∧ Monitor.C04.offsetCommit cid corr g gen c ps frame = .ok)
+  ∧ (∀ (cid : Bytes) (corr : Int) (topics : List (Option Bytes)),
+    mustMetadata cid corr topics = true →
+    ∃ frame, encodeMetadataRequest cid corr topics = .ok frame ∧ Monitor.C04.metadata cid corr topics frame = .ok)
+  ∧ (∀ (cid : Bytes) (corr : Int) (g : Option Bytes),
+    mustFindCoordinator cid corr g = true →
+    ∃ frame, encodeConsumerMetadataRequest cid corr g = .ok frame ∧ Monitor.C04.findCoordinator cid corr g frame = .ok)
+  ∧ (∀ (cid : Bytes) (corr : Int) (p : JoinGroupReq),
+    mustJoinGroup cid corr p = true →
+    ∃ frame, encodeJoinGroupRequest cid corr p = .ok frame ∧ Monitor.C04.joinGroup cid corr p frame = .ok)
+  ∧ (∀ (cid : Bytes) (corr : Int) (g : Option Bytes) (gen : Int) (m : Option Bytes) (asg : List (Option Bytes × Option Bytes)),
+    mustSyncGroup cid corr g gen m asg = true →
+    ∃ frame, encodeSyncGroupRequest cid corr g gen m asg = .ok frame ∧ Monitor.C04.syncGroup cid corr g gen m asg frame = .ok)
+  ∧ (∀ (cid : Bytes) (corr : Int) (g : Option Bytes) (gen : Int) (m : Option Bytes),
+    mustHeartbeat cid corr g gen m = true →
+    ∃ frame, encodeHeartbeatRequest cid corr g gen m = .ok frame ∧ Monitor.C04.heartbeat cid corr g gen m frame = .ok)
+  ∧ (∀ (cid : Bytes) (corr : Int) (g m : Option Bytes),
+    mustLeaveGroup cid corr g m = true →
+    ∃ frame, encodeLeaveGroupRequest cid corr g m = .ok frame ∧ Monitor.C04.leaveGroup cid corr g m frame = .ok)
+  ∧ (∀ (cid : Bytes) (corr key ver : Int),
+    mustApiVersions cid corr key ver = true →
+    ∃ frame, encodeApiVersionsRequest cid corr key ver = .ok frame ∧ Monitor.C04.apiVersions cid corr key ver frame = .ok)
+  ∧ (∀ (ver : Int) (subs : List (Option Bytes)) (ud : Option Bytes),
+    mustSubscription ver subs ud = true →
+    ∃ data, encodeJoinGroupProtocolMetadata ver subs ud = .ok data ∧ Monitor.C04.subscription ver subs ud data = .ok)
+  ∧ (∀ (ver : Int) (asg : List (Option Bytes × List Int)) (ud : Option Bytes),
+    mustAssignment ver asg ud = true →
+    ∃ data, encodeSyncGroupMemberAssignment ver asg ud = .ok data ∧ Monitor.C04.assignment ver asg ud data = .ok)
 
 end Afkak.Props.C04
